@@ -229,6 +229,8 @@ def gen_items(rnd, vk, n, cur):
         items[rnd.randrange(n)] = rnd.choice([200, 201, 200, 105])
     if n and cur and 0.45 <= r < 0.6:
         items[rnd.randrange(n)] = rnd.choice(cur)         # an item already present
+    if n and vk == "VAll" and 0.68 <= r < 0.74:
+        items[rnd.randrange(n)] = 1000 * rnd.choice([1, 2, 3]) + 500     # a NaN object: not equal to itself, found by identity
     if n and 0.6 <= r < 0.68:
         # the float d.0: equal to the int d, another value; sometimes as the j-th distinct float object d.0
         items[rnd.randrange(n)] = 300 + rnd.randint(0, 9) + 1000 * rnd.choice([0, 0, 1, 2, 3])
@@ -371,6 +373,9 @@ def corpus():
         cs.append(dict(vk="VAll", target=tgt, channel=ch, init=[1301, 1302, 2302, 2301], ops=[
             ["Reverse"], ["Sort", False, 0], ["Sort", True, 0], ["SetSlice", [None, None, -1], [3301, 2301]], ["Remove", 1],
             ["Remove", 301], ["Append", 1301], ["Reverse"], ["SetInt", 0, 1201], ["Append", 2201], ["Reverse"], ["Pop", 0]]))
+        cs.append(dict(vk="VAll", target=tgt, channel=ch, init=[1500, 1, 2500, 1], ops=[
+            ["Remove", 3500], ["Remove", 2500], ["Remove", 1500], ["Append", 1500], ["Extend", [2500, 1500]], ["Reverse"],
+            ["Remove", 1500], ["Sort", False, 0], ["Remove", 2500], ["Remove", 2500]]))
         cs.append(dict(vk="VCInt", target=tgt, channel=ch, init=[1, 2], ops=[
             ["Append", 1303], ["Extend", [2303, 3304]], ["SetInt", 0, 1201], ["Remove", 1303]]))
         cs.append(dict(vk="VAll", target=tgt, channel=ch, init=[1, 2, 302, 301], ops=[
